@@ -113,3 +113,52 @@ Proof.
       unfold remove_queued in Hs2. apply bind_ok in Hs2 as [q [_ Hs2]]. inversion Hs2; subst. reflexivity.
     + unfold remove_withdrawable in Hs2. apply bind_ok in Hs2 as [q [_ Hs2]]. inversion Hs2; subst. reflexivity.
 Qed.
+
+(* ---------------------------------------------------------------- activation count *)
+
+Lemma activation_count_bounded ex s :
+  let n := compute_activation_count ex s in
+  let ls := if ex then sub64 (l_size (act s)) 1 else l_size (act s) in
+  n <= l_size (que s) /\ (n = 0 \/ ls + n <= get_mbp s).
+Proof.
+  cbv zeta. unfold compute_activation_count.
+  set (ls := if ex then sub64 (l_size (act s)) 1 else l_size (act s)).
+  destruct ((get_mbp s <=? ls) || (l_size (que s) =? 0)) eqn:E; [split; [lia|auto]|].
+  apply orb_false_iff in E as [E1 E2]. apply N.leb_gt in E1.
+  destruct (get_mbp s - ls <? l_size (que s)) eqn:E3.
+  - apply N.ltb_lt in E3. split; [lia|right; lia].
+  - apply N.ltb_ge in E3. split; [lia|right; lia].
+Qed.
+
+(* ---------------------------------------------------------------- evictions *)
+
+Lemma ll_walk_in fuel h s r a v : ll_walk fuel h s = Ok r -> In (a, v) r -> getv s a = Some v.
+Proof.
+  revert h r. induction fuel as [|f IH]; intros h r H Hin.
+  - destruct h; cbn in H; [discriminate|]. inversion H; subst. contradiction.
+  - destruct h as [b|]; cbn in H; [|inversion H; subst; contradiction].
+    apply bind_ok in H as [e [He H]]. apply of_opt_ok in He.
+    apply bind_ok in H as [r' [Hr H]]. inversion H; subst. destruct Hin as [E|Hin].
+    + inversion E; subst. auto.
+    + eapply IH; eauto.
+Qed.
+
+(* a validator is put on the eviction list only at an eviction-interval block, when it has been offline for more
+   than the threshold and has not signalled exit *)
+Lemma evictions_only_after_threshold c b s t a :
+  compute_epoch_transition c b s = Ok t -> In a (tr_evictions t) ->
+  b <> 0 /\ b mod c_evict_int c = 0 /\
+  exists v off, getv s a = Some v /\ v_offline v = Some off /\ off + c_evict_thr c < b /\ v_exit v = None.
+Proof.
+  unfold compute_epoch_transition. intros H Hin.
+  apply bind_ok in H as [ev [Hev H]]. apply bind_ok in H as [ren [Hren H]]. inversion H; subst t; clear H.
+  cbn [tr_evictions] in Hin.
+  destruct (negb (b =? 0) && (b mod c_evict_int c =? 0)) eqn:E; [|inversion Hev; subst; contradiction].
+  apply andb_true_iff in E as [E1 E2]. apply negb_true_iff, N.eqb_neq in E1. apply N.eqb_eq in E2.
+  apply bind_ok in Hev as [l [Hl Hev]]. inversion Hev; subst ev; clear Hev.
+  apply in_map_iff in Hin as [[a' v] [Ea Hf]]. cbn in Ea. subst a'. apply filter_In in Hf as [Hf1 Hf2]. cbn in Hf2.
+  unfold iterate in Hl. pose proof (ll_walk_in _ _ _ _ _ _ Hl Hf1) as Hv.
+  unfold evictable in Hf2. destruct (v_offline v) as [off|] eqn:Eo; [|discriminate].
+  apply andb_true_iff in Hf2 as [F1 F2]. apply N.ltb_lt in F1. apply negb_true_iff in F2.
+  repeat split; auto. exists v, off. repeat split; auto. destruct (v_exit v); [discriminate|reflexivity].
+Qed.
